@@ -8,6 +8,12 @@ let plan_main () =
   let rec int_of_nat = function O -> 0 | S n -> 1 + int_of_nat n in
   let split c s = if s = "-" || s = "" then [] else String.split_on_char c s in
   let ids s = List.map (fun x -> nat_of_int (int_of_string x)) (split ',' s) in
+  (* graph entries: "3" is always there, "3@5" exists once the dyndep information of edge 5 is loaded *)
+  let gids s = List.map (fun x -> match String.index_opt x '@' with
+      | Some i -> (nat_of_int (int_of_string (String.sub x 0 i)),
+                   Some (nat_of_int (int_of_string (String.sub x (i + 1) (String.length x - i - 1)))))
+      | None -> (nat_of_int (int_of_string x), None)) (split ',' s) in
+  let optid s = if s = "-" then None else Some (nat_of_int (int_of_string s)) in
   let kv w = List.filter_map (fun x -> match String.index_opt x '=' with
       | Some i -> Some (String.sub x 0 i, String.sub x (i + 1) (String.length x - i - 1))
       | None -> None) w in
@@ -20,8 +26,10 @@ let plan_main () =
         | None -> None | Some w -> Some (string_of_int (int_of_nat e) ^ ":" ^ wchar w)) (want_list g p) in
     let us = List.map (fun (q, u) -> string_of_int (int_of_nat q) ^ ":" ^ string_of_int (int_of_nat u)) (use_list g p) in
     let j = function [] -> "-" | l -> String.concat "," l in
-    Printf.sprintf "want=%s ready=%s delayed=%s use=%s wanted=%d commands=%d running=%s pending=%d fa=%d exit=%d total=%d started=%d finished=%d tokens=%d failed=%s waiting=%d phase=%s"
-      (j ws) (show_ids p.p_ready) (show_ids p.p_delayed) (j us) (int_of_nat p.p_wanted)
+    let edge_ids = List.map fst (want_list g p) in
+    Printf.sprintf "want=%s oready=%s loaded=%s ready=%s delayed=%s use=%s wanted=%d commands=%d running=%s pending=%d fa=%d exit=%d total=%d started=%d finished=%d tokens=%d failed=%s waiting=%d phase=%s"
+      (j ws) (show_ids (List.filter p.p_oready edge_ids)) (show_ids (List.filter p.p_loaded edge_ids))
+      (show_ids p.p_ready) (show_ids p.p_delayed) (j us) (int_of_nat p.p_wanted)
       (int_of_nat p.p_commands) (show_ids s.s_running) (int_of_nat s.s_pending) (int_of_nat s.s_fa)
       (int_of_nat s.s_exit) (int_of_nat s.s_total) (int_of_nat s.s_started) (int_of_nat s.s_finished)
       (int_of_nat p.p_tokens) (show_ids s.s_failed) (if s.s_waiting then 1 else 0)
@@ -30,6 +38,8 @@ let plan_main () =
   let pools = ref [] and edges = ref [] and wants = ref [] and oreadys = ref [] and ranks = ref [] in
   let snapw = ref 0 and snapc = ref 0 in
   let g = ref { g_edges = []; g_depths = [] } in
+  let loadtbl : (int, load) Hashtbl.t = Hashtbl.create 7 in
+  let loads e = Hashtbl.find_opt loadtbl (int_of_nat e) in
   let st : state option ref = ref None in          (* None = not initialised or rejected *)
   let dead = ref false in
   let out s = print_string s; print_char '\n' in
@@ -38,7 +48,7 @@ let plan_main () =
     match !st with
     | None -> out "skip"
     | Some s ->
-      (match step_res !g !cfg s ev with
+      (match step_res !g !cfg loads s ev with
        | Ok s' -> st := Some s'; out ("ok " ^ show !g s')
        | Forbidden -> dead := true; out "forbidden"
        | OutOfFuel -> dead := true; out "fuel") in
@@ -52,18 +62,29 @@ let plan_main () =
       cfg := { c_j = nat_of_int (geti "j"); c_k = nat_of_int (geti "k");
                c_jobserver = if t < 0 then None else Some (nat_of_int t) };
       pools := []; edges := []; wants := []; oreadys := []; ranks := []; st := None; dead := false;
+      Hashtbl.reset loadtbl;
       out ("plan " ^ sid)
     | [ "pool"; _id; d ] -> pools := !pools @ [ nat_of_int (int_of_string d) ]
     | "edge" :: _id :: rest ->
       let m = kv rest in
       let a k = List.assoc k m in
-      edges := !edges @ [ { ei_ins = ids (a "ins"); ei_cons = ids (a "cons");
-                            ei_pool = nat_of_int (int_of_string (a "pool")); ei_phony = a "phony" = "1" } ];
+      let ao k d = match List.assoc_opt k m with Some v -> v | None -> d in
+      edges := !edges @ [ { ei_ins = gids (a "ins"); ei_cons = gids (a "cons");
+                            ei_pool = nat_of_int (int_of_string (a "pool")); ei_phony = a "phony" = "1";
+                            ei_ddprod = optid (ao "ddprod" "-"); ei_ddouts = ids (ao "ddouts" "-") } ];
       wants := !wants @ [ (match a "want" with "n" -> Some WNothing | "s" -> Some WToStart
                                               | "f" -> Some WToFinish | _ -> None) ];
       oreadys := !oreadys @ [ a "ready" = "1" ];
       ranks := !ranks @ [ nat_of_int (int_of_string (a "rank")) ]
     | [ "snapplan"; w; c ] -> snapw := int_of_string w; snapc := int_of_string c
+    | "load" :: e :: rest ->
+      (* load <edge whose EdgeFinished loads> dirty=<ids> ready=<ids> added=<id:s|id:n,..> walk=<ids> *)
+      let m = kv rest in
+      let a k = match List.assoc_opt k m with Some v -> v | None -> "-" in
+      let added = List.map (fun x -> match String.split_on_char ':' x with
+          | [ i; w ] -> (nat_of_int (int_of_string i), w = "s") | _ -> failwith "bad added") (split ',' (a "added")) in
+      Hashtbl.replace loadtbl (int_of_string e)
+        { ld_dirty = ids (a "dirty"); ld_ready = ids (a "ready"); ld_added = added; ld_walk = ids (a "walk") }
     | [ "init"; prio ] ->
       g := { g_edges = !edges; g_depths = !pools };
       let wa = Array.of_list !wants and oa = Array.of_list !oreadys and ra = Array.of_list !ranks in
@@ -81,7 +102,7 @@ let plan_main () =
       (match !st with
        | None -> out "skip"
        | Some s ->
-         let evs, s' = auto_phony (plan_fuel !g) !g !cfg (ids prio) (ids allowed) s in
+         let evs, s' = auto_phony (plan_fuel !g) !g !cfg loads (ids prio) (ids allowed) s in
          st := Some s';
          out ("ok " ^ show !g s' ^ " auto=" ^
               show_ids (List.filter_map (function EvStart (e, _) -> Some e | _ -> None) evs)))
